@@ -42,6 +42,10 @@ type Prog struct {
 
 	kinds    *Kinds
 	kindsErr error
+
+	invoked map[string]bool
+	private map[*ssa.Function]bool
+	roleSet map[*ssa.Function]bool
 }
 
 // Load type-checks /repo's current working tree and builds SSA for it.
@@ -96,6 +100,7 @@ func Load(dir string, tags string) (*Prog, error) {
 	p.collectFuncs()
 	p.indexCalls()
 	p.buildCanon()
+	Active = p
 	if h := p.HashcodeFn(); h != nil && h.Object() != nil {
 		pureCallees[h.Object().(*types.Func).FullName()] = true
 	}
